@@ -130,9 +130,13 @@ func (d *dumpStruct) loopHandleKV(s reflect.StructField, tv reflect.Value, isNee
 		tmpIndex := 0
 		for mapObj.Next() {
 			// 把 key 处理成字符串
-			d.buf.WriteByte('"')
-			d.loopHandleKV(d.nullStructFiled, mapObj.Key(), false)
-			d.buf.WriteByte('"')
+			if key := mapObj.Key(); key.Kind() == reflect.String { // string 类型的 key 已带双引号
+				d.loopHandleKV(d.nullStructFiled, key, false)
+			} else {
+				d.buf.WriteByte('"')
+				d.loopHandleKV(d.nullStructFiled, key, false)
+				d.buf.WriteByte('"')
+			}
 			d.buf.WriteString(":")
 			d.loopHandleKV(d.nullStructFiled, mapObj.Value(), false)
 			if tmpIndex < mapLen-1 {
